@@ -57,6 +57,30 @@ RUNS = {
         {"name": "K6-pool", "mode": "kpool", "budget": (3000, 100000), "nontrivial": r"x", "keyfn": "generic"},
         {"name": "K6-mux", "mode": "kmux", "budget": (600, 15000), "nontrivial": r".", "keyfn": "generic"},
     ],
+    "C06": [
+        {"name": "K7-tags", "mode": "k7tags", "budget": (120, 3000), "nontrivial": r"missing=0", "keyfn": "generic"},
+        {"name": "K7-tag-reuse", "mode": "k7reuse", "budget": (20, 400), "nontrivial": r".", "keyfn": "generic"},
+        {"name": "K7-flush-replies", "mode": "k7flush", "budget": (60, 1500), "nontrivial": r"rflush=1", "keyfn": "generic"},
+        {"name": "K7-pairs-delay", "mode": "k7pair", "budget": (320, 968), "nontrivial": r"overlap=1", "keyfn": "k7pair"},
+        {"name": "K7-scenarios", "mode": "k7scen", "budget": (8, 150), "nontrivial": r".", "keyfn": "k7scen"},
+        {"name": "K7-tags-race", "mode": "k7tags", "budget": (0, 300), "nontrivial": r"missing=0", "keyfn": "generic", "race": True, "tiers": ["thorough"]},
+    ],
+    "C07": [
+        {"name": "K7-pairs", "mode": "k7pair", "budget": (968, 2904), "nontrivial": r"overlap=0", "keyfn": "k7pair"},
+        {"name": "K7-scenarios", "mode": "k7scen", "budget": (8, 150), "nontrivial": r".", "keyfn": "k7scen"},
+    ],
+    "C14": [
+        {"name": "K7-flush", "mode": "k7flush", "budget": (150, 4000), "nontrivial": r"rflush=1", "keyfn": "generic"},
+    ],
+    "C16": [
+        {"name": "K7-random-workloads", "mode": "k7rand", "budget": (12, 300), "nontrivial": r".", "keyfn": "generic"},
+        {"name": "K7-shared-path-storm", "mode": "k7storm", "budget": (60, 2500), "nontrivial": r".", "keyfn": "generic"},
+        {"name": "K7-scenarios", "mode": "k7scen", "budget": (8, 150), "nontrivial": r".", "keyfn": "k7scen"},
+        {"name": "K7-random-workloads-race", "mode": "k7rand", "budget": (0, 90), "nontrivial": r".", "keyfn": "generic", "race": True, "tiers": ["thorough"]},
+        {"name": "K7-shared-path-storm-race", "mode": "k7storm", "budget": (0, 600), "nontrivial": r".", "keyfn": "generic", "race": True, "tiers": ["thorough"]},
+        {"name": "K7-pairs-race", "mode": "k7pair", "budget": (0, 968), "nontrivial": r".", "keyfn": "k7pair", "race": True, "tiers": ["thorough"]},
+        {"name": "K4-session-race", "mode": "k4", "budget": (0, 9000), "nontrivial": r"^rtyp=(?!7 )", "keyfn": "k4", "race": True, "tiers": ["thorough"]},
+    ],
     "C02": [
         {"name": "K2-framing", "mode": "k2", "budget": (1500, 40000), "nontrivial": r"recv\d+=(msg|proto)", "keyfn": "k2"},
     ],
@@ -65,6 +89,84 @@ RUNS = {
 NOT_YET = {}
 
 PROPS = {
+    "C06": {
+        "level_text": "Proof: one server connection is a labelled transition system (Conc/ConnProto.lean: StartTag / WaitTag / wake / backend enter+leave / "
+                      "handler return+ClearTag / reply write, per request record, any tags incl. duplicates and re-use); for every label sequence an "
+                      "invariant proved by induction gives: a request has exactly one reply frame once answered and none before, every frame carries the "
+                      "tag of the accepted request it answers, nothing else is written; a request whose tag is in flight is dropped; a Tflush of its own "
+                      "or of an idle tag does not wait; an accepted request can always finish and be sent once its backend call returned. Regenerated "
+                      "obligations over the lock scripts of server.go/handlers.go/path_tree.go/client.go: every frame is written under sendMu and read "
+                      "under recvMu, no backend call runs under a leaf mutex (fidMu, tagMu, sendMu, recvMu, pendingMu, pool.mu), and a backend call under "
+                      "childMu happens only inside the global rename lock. Partial: that a blocked request delays only contract-ordered ones is the "
+                      "guard-compatibility model of C07 checked against the running server by the rendezvous harness.",
+        "level_note": "Trusted: Lean kernel; Conc/ConnProto.lean is a hand-written model of handleRequest/StartTag/ClearTag/WaitTag/tflush.handle with "
+                      "'send' atomic (justified by the sendMu obligation); the lock-script extractor (extract/locks.go: straight-line scripts with "
+                      "branches, defers replayed LIFO, closures inlined at safely* / go sites). Tie: K7 - real server over socketpairs with a gated "
+                      "backend: bursts of 4..64 requests with adversarial tags through a reply writer that splits every write and yields (frames must "
+                      "parse contiguously, one reply per tag, none unasked), same tag while in flight and immediately after the reply, flushes of "
+                      "own/idle/earlier tags, all ordered pairs of 22 operations with the first held inside the backend, a Close blocked in the backend.",
+        "rule": "k7tags: burst size 4..63, tags base+k*(1..3) avoiding NOTAG, 0..3 requests gated and released after 0..20 ms, two thirds with the "
+                "chunking writer; k7reuse: tag 7 thrice (in flight, after reply); k7flush: victim in {ReadAt, WriteAt, GetAttr, Walk} x chained flush; "
+                "k7pair: window of the 968 (a, b, same/other connection) cases (all in thorough); thorough adds the race-detector build.",
+        "assumptions": ["I3: delay may propagate along a chain of pairwise conflicting requests (Go RWMutex writer preference)"],
+        "trusted_base": ["Conc/ConnProto.lean", "Conc/Locks.lean (script interpreter)", "extract/locks.go", "Driver/K7.lean"],
+    },
+    "C07": {
+        "level_text": "Proof + regenerated obligation: every backend call a handler makes sits inside the guard its class demands on the reference it is "
+                      "made on (decided over the lock scripts regenerated from handlers.go/server.go/path_tree.go: write class under safelyWrite, "
+                      "Tunlinkat additionally write-locks the child's node, RenameAt/Renamed/Tremove's UnlinkAt under the global write lock, read class "
+                      "and walks under safelyRead, a clone on its parent), Open only inside the per-reference section that tests and sets 'opened'; the "
+                      "guards as sets of (lock instance, mode) are proved pairwise incompatible exactly where the contract forbids overlap, and Go's "
+                      "RWMutex (transition system with writer preference) never admits a writer next to another holder in any schedule (induction).",
+        "level_note": "Trusted: Lean kernel; sync.RWMutex semantics as modelled in Conc/RWMutex.lean; the extractor's scripts; Conc/Guards.lean (guards "
+                      "as lock sets; a clone first read-locks its own node to test 'opened', then its parent's). Tie: K7-pairs - all 22x22x2 ordered "
+                      "pairs of backend-reaching operations (same fid, two fids on one path, parent/child, siblings, same/other connection), the first "
+                      "held at a gate inside the backend: 'the second reaches the backend meanwhile' must equal guard compatibility; second refused "
+                      "without backend call exactly when fenced / same-fid open / no-op rename; both answered. Two Tlopen on one fid: one Open.",
+        "rule": "k7pair: exhaustive over the op table x {same, other connection} (3 passes with fresh seeds in thorough); a pair seen blocked is "
+                "retried once with a 300 ms window before it counts as blocked. Non-trivial: pairs that must not overlap.",
+        "assumptions": ["I2: calls on a File not yet bound to a fid are exempt; a clone (Walk(nil)) is a read on the parent path"],
+        "trusted_base": ["Conc/RWMutex.lean", "Conc/Guards.lean", "Conc/Locks.lean", "extract/locks.go", "Driver/K7.lean"],
+    },
+    "C14": {
+        "level_text": "Proof: in the connection transition system, for every interleaving: if a Tflush has passed its wait (only then can its handler "
+                      "return and Rflush be written) and it waited on request j - the holder of the old tag when WaitTag ran - then j's handler has "
+                      "returned and no backend call runs on its behalf (invariant, induction over labels); a request whose handler returned never "
+                      "enters the backend again; a flush of an idle / answered / own tag sets 'waited' at once; an action on one request leaves every "
+                      "other record untouched, so a flush never cancels, duplicates or suppresses the flushed request's reply (with C06 one_reply).",
+        "level_note": "Trusted: Lean kernel; Conc/ConnProto.lean (hand-written; WaitTag = wait for the channel of the tag's current holder; ClearTag "
+                      "closes it when the handler returns - granularity: handler return and ClearTag are one step). Tie: K7-flush - victim request held "
+                      "at a gate inside ReadAt/WriteAt/GetAttr/Walk, then Tflush (optionally a chained Tflush of the Tflush), a flush of an idle tag, a "
+                      "flush of its own tag and unrelated traffic: the three latter answered while the gate is closed, no Rflush/victim reply before "
+                      "the release, afterwards exactly one Rflush per flush and the victim's own reply, no duplicates; predictions are computed by "
+                      "running the model to quiescence with 'leave' of the victim forbidden, then allowed.",
+        "rule": "k7flush: victim kind x chained in {0,1}, random seeds; windows: must-arrive replies awaited up to 5 s, must-not-arrive ones watched "
+                "for 80 ms after the last arrival. Non-trivial: every case (a flush of a running request).",
+        "assumptions": [],
+        "trusted_base": ["Conc/ConnProto.lean", "Conc/ConnInv.lean", "Driver/K7.lean"],
+    },
+    "C16": {
+        "level_text": "Proof + regenerated obligations: (lockset) every access to connState.fids, connState.tags, a path node's child maps, pool.cache, "
+                      "Client.pending, Mapper.paths and the wire happens with its mutex held on every path of every function reachable from a request "
+                      "goroutine, stop(), a client call, the allocators and the QID mapper; (order) every acquisition made while other locks are held "
+                      "respects openedMu < renameMu < opMu < fidMu < childMu < leaves, tree-descending for opMu - both decided by kernel evaluation "
+                      "over the lock scripts regenerated from the current source; ordered acquisition admits no deadlock for any number of "
+                      "goroutines, locks and connections (proved generically); RWMutex exclusion in every schedule; a request on one connection leaves "
+                      "every other connection's fid bindings untouched (C15 frame theorem, all 65 message types, any backend outcome). Partial: "
+                      "lost wake-ups in Go channels/WaitGroups and data races on state the scripts do not track are runtime behaviour, observed by "
+                      "the concurrent harness (watchdog, alone-vs-concurrent comparison, race detector in thorough).",
+        "level_note": "Trusted: Lean kernel; the extractor's tracked-field list and script construction; rank assignment in Conc/Locks.lean. Tie: "
+                      "K7-random-workloads (2..64 client goroutines over 1..8 connections to one Server on localfs temp trees, each in its own subtree, "
+                      "scheduling perturbation in every backend call and in half of the reply writers, with/without cross-directory renames: all "
+                      "finish within 60 s and each observes exactly what it observes alone on a fresh server); K7-shared-path-storm (workers on "
+                      "shared names with unlink/rename/remove/clunk against the scripted backend with 3% faults: every request answered, stop() "
+                      "returns, every File closed exactly once and never used after); deterministic D9/D13/D8 scenarios; thorough: all of it and "
+                      "K4 under the Go race detector.",
+        "rule": "k7rand: workers 2..64, connections 1..8, 10..49 operations each of 12 kinds; k7storm: 1..4 connections x 1..8 workers x 20..79 "
+                "requests of 10 kinds on names p/q/r; one outstanding request per fid. Non-trivial: every case.",
+        "assumptions": ["clients keep at most one request outstanding per fid (the property's own premise)", "POSIX backend: refuses renames into the own subtree"],
+        "trusted_base": ["Conc/Locks.lean", "Conc/RWMutex.lean", "extract/locks.go", "Driver/K7.lean"],
+    },
     "C10": {
         "level_text": "Proof: the allocator keeps (cache ++ outstanding) duplicate-free within [start, limit) under every Get/Put sequence (induction), "
                       "so outstanding tags/fids are pairwise distinct and never NOTAG/NOFID, and exhaustion fails instead of duplicating; the request "
@@ -334,6 +436,8 @@ PROPS = {
 def plan(prop, tier, seed, failing, replay):
     runs = []
     for r in RUNS.get(prop, []):
+        if r.get("tiers") and tier not in r["tiers"]:
+            continue
         q, t = r["budget"]
         budget = t if (tier == "thorough" or failing) else q
         seeds = [seed] if tier == "quick" else [seed, seed * 7919 + 1, seed * 104729 + 2]
@@ -380,7 +484,19 @@ def key_kcs(m):
     return "kcs:%s:%s" % (t.group(1) if t else "?", re.sub(r"\d+", "", toks[0].split("=")[0]))
 
 
-KEYFNS = {"k1": key_k1, "k2": key_k2, "k4": key_k4, "kcs": key_kcs}
+def key_k7pair(m):
+    a = re.search(r"\ba=(\w+)", m["lhs"])
+    b = re.search(r"\bb=(\w+)", m["lhs"])
+    toks = m["impl_only"] + m["model_only"] + ["?"]
+    return "k7pair:%s/%s:%s" % (a.group(1) if a else "?", b.group(1) if b else "?", toks[0])
+
+
+def key_k7scen(m):
+    n = re.search(r"name=(\S+)", m["lhs"])
+    return "k7scen:%s" % (n.group(1) if n else "?")
+
+
+KEYFNS = {"k7pair": key_k7pair, "k7scen": key_k7scen, "k1": key_k1, "k2": key_k2, "k4": key_k4, "kcs": key_kcs}
 
 
 def monitor_lifecycle(lines):
@@ -435,10 +551,18 @@ MONITORS = {"lifecycle": monitor_lifecycle, "names": monitor_names}
 
 def execute(run, run_corr, sh, BUILD, REPO):
     t0 = time.time()
-    lines, mism, stats, err = run_corr(run["mode"], run["seed"], run["n"], run.get("extra"))
+    lines, mism, stats, err = run_corr(run["mode"], run["seed"], run["n"], run.get("extra"), race=bool(run.get("race")))
     res = {"evaluations": len(lines), "mismatches": len(mism), "stats": stats, "problems": [], "samples": [], "distinct": set()}
     if err:
-        res["problems"].append({"kind": "harness", "key": "harness:" + run["mode"], "what": err})
+        # a data race report, a Go runtime abort or a panic escaping the server is a concrete failure of the
+        # implementation on this (mode, seed, budget); anything else is a harness problem
+        m = re.search(r"(DATA RACE|fatal error: [^\n]*|panic: [^\n]{0,80}|goroutine stack exceeds)", err)
+        if m:
+            sig = re.sub(r"0x[0-9a-f]+|\d+", "", m.group(1)).strip()
+            res["problems"].append({"kind": "monitor", "key": "runtime-abort:" + sig, "what": err,
+                                    "rerun": {"mode": run["mode"], "seed": run["seed"], "budget": run["n"], "race": bool(run.get("race"))}})
+        else:
+            res["problems"].append({"kind": "harness", "key": "harness:" + run["mode"], "what": err})
     nt = re.compile(run.get("nontrivial", "."))
     for l in lines:
         lhs, rhs = l.split(" => ", 1)
